@@ -76,6 +76,43 @@ impl<F: Flav> CWorld<F> {
     }
 }
 
+/// Every node object's edge lists, through the original handles: container calls (insert, remove, the views,
+/// the exports) are map operations and must leave them alone.
+fn adjacency<F: Flav>(w: &CWorld<F>) -> Vec<(Vec<(K, u32)>, Vec<(K, u32)>)> {
+    let mut v = vec![];
+    for pair in &w.objs {
+        for o in pair {
+            let out = F::iter_out(o).iter().map(|e| (F::key(F::e_dst(e)), F::e_val(e).id)).collect();
+            let inn = F::iter_in(o).iter().map(|e| (F::key(F::e_src(e)), F::e_val(e).id)).collect();
+            v.push((out, inn));
+        }
+    }
+    v
+}
+
+fn adjacency_diff<F: Flav>(w: &CWorld<F>, before: &[(Vec<(K, u32)>, Vec<(K, u32)>)], what: &str) -> Vec<String> {
+    match catch(|| adjacency::<F>(w)) {
+        Err(p) => vec![format!("after {} the edges of the node objects can no longer be read: {}", what, p)],
+        Ok(after) => {
+            for (i, (b, a)) in before.iter().zip(after.iter()).enumerate() {
+                if b != a {
+                    return vec![format!(
+                        "{} changed the edges of node {}{}: before out={:?} in={:?}, after out={:?} in={:?}",
+                        what,
+                        i / 2,
+                        if i % 2 == 0 { "a" } else { "b" },
+                        b.0,
+                        b.1,
+                        a.0,
+                        a.1
+                    )];
+                }
+            }
+            vec![]
+        }
+    }
+}
+
 fn set_of<F: Flav>(v: &[F::Node]) -> Vec<(K, u64)> {
     let mut s: Vec<(K, u64)> = v.iter().map(|n| (F::key(n), F::val(n).inst)).collect();
     s.sort();
@@ -328,6 +365,10 @@ fn apply<F: Flav>(w: &mut CWorld<F>, op: COp, rep: &mut Report) -> Vec<String> {
         COp::Isolate(..) => "isolate",
         COp::IsolateVia(..) => "isolate_via_container_handle",
     }));
+    let before = match op {
+        COp::Insert(..) | COp::Remove(..) => catch(|| adjacency::<F>(w)).ok(),
+        _ => None,
+    };
     match op {
         COp::Insert(k, var) => {
             let want = !w.model.contains_key(&k);
@@ -441,6 +482,10 @@ fn apply<F: Flav>(w: &mut CWorld<F>, op: COp, rep: &mut Report) -> Vec<String> {
             }
         }
     }
+    if let Some(b) = before {
+        v.extend(adjacency_diff::<F>(w, &b, if matches!(op, COp::Insert(..)) { "insert" } else { "remove" }));
+        rep.count("adjacency_rechecks_after_insert_remove");
+    }
     v
 }
 
@@ -451,6 +496,7 @@ pub fn run_history<F: Flav>(nk: usize, hist: &[COp], dot_mode: u8, rep: &mut Rep
     for (i, op) in hist.iter().enumerate() {
         rep.count("evaluations");
         let mut m = apply::<F>(&mut w, *op, rep);
+        let before = catch(|| adjacency::<F>(&w)).ok();
         match catch(|| {
             let mut r = Report::new();
             let x = check_views::<F>(&w, &mut r);
@@ -459,11 +505,18 @@ pub fn run_history<F: Flav>(nk: usize, hist: &[COp], dot_mode: u8, rep: &mut Rep
             Ok(x) => m.extend(x),
             Err(p) => m.push(format!("a container query panicked: {}", p)),
         }
+        if let Some(b) = &before {
+            m.extend(adjacency_diff::<F>(&w, b, "a read-only container call (len/get/index/to_vec/iter/roots/leaves/orphans)"));
+        }
         if !m.is_empty() {
             return Some((i, m));
         }
     }
-    let m = check_dot::<F>(&w, dot_mode, rep);
+    let before = catch(|| adjacency::<F>(&w)).ok();
+    let mut m = check_dot::<F>(&w, dot_mode, rep);
+    if let Some(b) = &before {
+        m.extend(adjacency_diff::<F>(&w, b, "a DOT export"));
+    }
     if !m.is_empty() {
         return Some((hist.len().saturating_sub(1), m));
     }
